@@ -10,7 +10,14 @@ model run: the observed schedule (which task stepped when, what connect_socket a
            the model and produce the same observable lines (socket creation / bind / close / winner / outcome / open set).
 oracle   : descriptor table of the process before/after + per-socket state: exactly the returned socket stays open,
            nothing stays open when an exception is raised; a socket is returned when an attempt succeeded and nobody
-           cancelled; failure of all attempts is reported as the exception group with one OSError per failure at least.
+           cancelled; failure of all attempts is reported as the exception group with one OSError per failure at least;
+           "all failed" is never reported (nobody cancelling, nothing crashing) when some address can be connected
+           by its own configuration (socket() works, a local address of its family binds or none was asked for, connect
+           answers ok); every attempt does what its OWN configuration dictates (socket / bind scan of the local list
+           from the start / connect), whatever the other attempts did (attempt independence, mode tracked).
+client   : api "client" (vlib/c19_client.py, oracle only): AsyncTCPNetworkClient and AsyncUDPNetworkClient on real loopback
+           sockets, resolver gated for the remote and the local name; close / context exit / cancellation at every
+           position of the connect, plain connects with several candidate addresses and a local address by name.
 """
 from __future__ import annotations
 
@@ -45,6 +52,9 @@ TRUSTED_BASE = [
     "asyncio.TaskGroup, easynetwork CancelScope / move_on_after: abstracted (cancellation of children only after winner / "
     "caller cancel / crash; join before return) — checked on every observed trace",
     "harness: virtual-time loop, scripted connect_socket, tracking socket class, /proc/self/fd reader, endriver parser",
+    "client layer: real asyncio loop and loopback sockets (127.0.0.1, ::1 when usable), AsyncIOBackend subclass gating "
+    "getaddrinfo; kernel loopback semantics (refused connect on a bound non-listening port, EOF visible to the peer after "
+    "close, UDP connect() to 255.255.255.255 failing at once: probed)",
 ]
 ASSUMPTIONS = [
     "connect_socket either returns, raises OSError, raises another exception, or is cancelled; it does not close or "
@@ -55,7 +65,12 @@ RULE = (
     "case = address list (families 4/6/other, socket() ok/fail, connect outcome ok/err/crash/hang) x local addresses "
     "(bind ok/fail per family) x stagger delay (inf/0/k ticks) x per-turn script (complete attempt i, cancel caller, "
     "advance clock); non-trivial = overlapping attempts, double success, cancellation, crash, bind/socket failure "
-    "(class = first that applies); distinct by case digest"
+    "(class = first that applies); distinct by case digest; plus directed cases 'local list with a family the remote "
+    "host lacks + a bindable address of the remote family, a non-first address is the good one' (race / seq, tracked / "
+    "real); plus client-layer cases: protocol tcp/udp x candidate addresses (ok / refused, IPv4 / IPv6) x local address "
+    "by name (bindable / not, both families) x starter (wait_connected / send_packet / recv_packet / async with) x "
+    "interruption (aclose / __aexit__ / task cancel / none) x loop turn of the interruption x turns at which the resolver "
+    "answers for the remote and the local name"
 )
 
 # ----------------------------------------------------------------------------------------------
@@ -136,6 +151,76 @@ def _parse(real: list[str]) -> dict[str, Any]:
     return d
 
 
+def _bindable(case: dict, fam: int) -> bool:
+    """does the configuration give attempts of family `fam` a local address they can bind to (no local list = no bind)"""
+    loc = case.get("local")
+    if loc is None:
+        return True
+    return any(int(l["fam"]) == fam and bool(l["bind"]) for l in loc)
+
+
+def _could_succeed(case: dict, i: int) -> bool:
+    """address i ALONE (its own socket() / local addresses of its family / connect answer) yields a connected socket"""
+    a = case["addrs"][i]
+    fam = int(a["fam"])
+    if not a["sock"] or a["out"] != "ok":
+        return False
+    if case.get("mode", "tracked") != "tracked":
+        # genuine socket module: only the loopback families exist, IPv6 loopback must be usable on this machine
+        if fam not in (4, 6) or (fam == 6 and not env.ipv6_loopback_ok()):
+            return False
+    return _bindable(case, fam)
+
+
+def _expected_attempt_lines(case: dict, i: int) -> list[str]:
+    """mode tracked: the lines attempt i produces up to (and including) the start of its connect, as determined by the
+    configuration of attempt i alone (socket() outcome, the local addresses of ITS family in order, first bind that
+    works ends the scan).  Nothing another attempt did may change them: attempts are independent."""
+    a = case["addrs"][i]
+    if not a["sock"]:
+        return [f"sock {i} fail"]
+    out = [f"sock {i} ok"]
+    loc = case.get("local")
+    if loc is not None:
+        bound = False
+        for j, l in enumerate(loc):
+            if int(l["fam"]) != int(a["fam"]):
+                continue
+            out.append(f"bind {i} {j} {'ok' if l['bind'] else 'fail'}")
+            if l["bind"]:
+                bound = True
+                break
+        if not bound:
+            return out
+    out.append(f"conn {i}")
+    return out
+
+
+def _independence(case: dict, real: list[str]) -> str | None:
+    """every attempt that ran did what its own configuration dictates (quantifier: bind failures x every order of
+    attempts): in particular an attempt for whose family a bindable local address exists reaches its connect."""
+    n = len(case["addrs"])
+    seen: dict[int, list[str]] = {}
+    for ln in real:
+        w = ln.split()
+        if w[0] in ("sock", "bind", "conn") and len(w) > 1 and w[1].isdigit():
+            seen.setdefault(int(w[1]), []).append(ln)
+    for i in sorted(seen):
+        if not (0 <= i < n):
+            return f"attempt-unknown: lines for an attempt {i} that is not in the address list"
+        exp = _expected_attempt_lines(case, i)
+        got = seen[i]
+        if got == exp:
+            continue
+        a = case["addrs"][i]
+        if a["sock"] and _bindable(case, int(a["fam"])) and f"conn {i}" not in got:
+            return (f"attempt-not-independent: attempt {i} (family {a['fam']}) never tried to connect although a local "
+                    f"address of its family can be bound: it did {got}, its own configuration dictates {exp} "
+                    "(what an earlier attempt did with the local address list must not matter)")
+        return f"attempt-deviates: attempt {i} did {got}, its own configuration dictates {exp}"
+    return None
+
+
 _lost = {"n": 0}
 # the statement says "cancelled at any point => every socket closed and the failure reported": judged by default;
 # VERIF_C19_STRICT_CANCEL=0 restores the old counting-only behaviour (debugging aid)
@@ -152,6 +237,7 @@ def oracle(case: dict, real: list[str]) -> str | None:
         return f"run did not complete: {real[-1]}"
     d = _parse(real)
     fin, opn, fds = d["fin"], d["open"], d["fds"]
+    deferred: str | None = None
     if "stuck" in real:
         i = real.index("stuck")
         won = [ln for ln in real[:i] if ln.startswith("res ") and ln.endswith(" ok")]
@@ -183,8 +269,9 @@ def oracle(case: dict, real: list[str]) -> str | None:
                 idx = [k for k, ln in enumerate(real) if ln == "cancel"]
                 raced = all(k + 1 < len(real) and real[k + 1].startswith("pendingscope ") for k in idx)
                 tag = "lost-cancel" if raced else "lost-cancel-no-scope-request-pending"
-                return (f"{tag}: the caller was cancelled during the connect, yet socket {w} was returned "
-                        "(statement: cancelled at any point => every socket closed and the failure reported)")
+                # (deferred: a different, unlisted failure of the same run must not hide behind the listed one)
+                deferred = (f"{tag}: the caller was cancelled during the connect, yet socket {w} was returned "
+                            "(statement: cancelled at any point => every socket closed and the failure reported)")
     else:
         if opn:
             return f"leak: {' '.join(fin)} but sockets {opn} are still open"
@@ -198,6 +285,17 @@ def oracle(case: dict, real: list[str]) -> str | None:
         if kind == "allfailed":
             if int(fin[2]) < len(case["addrs"]):
                 return f"all attempts failed but only {fin[2]} errors reported for {len(case['addrs'])} addresses"
+            if not d["cancel"] and not d["crash"]:
+                # "exactly one connected socket is returned if any attempt succeeds": nobody cancelled, nothing crashed,
+                # so every address had its attempt; one whose own configuration yields a connected socket (socket() works,
+                # a local address of its family can be bound or none was asked for, connect answers ok) must have won
+                can = [i for i in range(len(case["addrs"])) if _could_succeed(case, i)]
+                if can:
+                    a = case["addrs"][can[0]]
+                    return (f"possible-connection-failed: every attempt was reported as failed ({' '.join(fin[1:])}) although "
+                            f"address {can[0]} (family {a['fam']}) can be connected: socket() works, "
+                            + ("no local address was asked for" if case.get("local") is None else "a local address of its family can be bound")
+                            + ", connect answers ok; nobody cancelled, nothing crashed")
         if kind == "cancelled" and not d["cancel"]:
             return "CancelledError raised although the caller was not cancelled"
         if kind == "crash" and not d["crash"]:
@@ -209,12 +307,15 @@ def oracle(case: dict, real: list[str]) -> str | None:
             ret = fin[0] == "ret" and int(fin[1]) == i
             if n + (1 if ret else 0) != 1:
                 return f"socket {i}: closed {n} times, returned={ret}"
-    return None
+        why = _independence(case, real)
+        if why:
+            return why
+    return deferred
 
 
 def nontrivial(case: dict, real: list[str]) -> str | None:
     if case.get("api") == "client":
-        return f"client/{case['how']}/{case.get('then', 'none')}"
+        return f"client/{case.get('proto', 'tcp')}/{case['how']}/{case.get('then', 'none')}"
     d = _parse(real)
     # overlapping attempts: a conn while another one is pending
     pending, overlap = set(), False
@@ -276,8 +377,24 @@ def shrink(case: dict):
         if len(case["addrs"]) > 1:
             for i in range(len(case["addrs"])):
                 yield {**case, "addrs": case["addrs"][:i] + case["addrs"][i + 1:]}
-        if case.get("at", 0) > 0:
-            yield {**case, "at": case["at"] - 1}
+        for i, a in enumerate(case["addrs"]):
+            if a.endswith("6"):
+                yield {**case, "addrs": case["addrs"][:i] + [a[:-1]] + case["addrs"][i + 1:]}
+        loc = case.get("local")
+        if loc is not None:
+            yield {**case, "local": None, "g2": case.get("g1", -1)} if "g1" in case else {**case, "local": None}
+            if len(loc) > 1:
+                for j in range(len(loc)):
+                    yield {**case, "local": loc[:j] + loc[j + 1:]}
+        if case.get("hed") is not None:
+            yield {**case, "hed": None}
+        if case.get("then", "none") != "none":
+            yield {**case, "then": "none"}
+        if case.get("how") == "exit":
+            yield {**case, "how": "aclose"}
+        for k in ("at", "g1", "g2"):
+            if k in case and case[k] > (0 if k == "at" else -1):
+                yield {**case, k: case[k] - 1}
         if case.get("release", 0) > 0:
             yield {**case, "release": case["release"] - 1}
         return
@@ -407,10 +524,59 @@ def _dense_case(rng) -> dict:
     return {"addrs": addrs, "local": local, "delay": delay, "script": script, "mode": "tracked", "api": "race", "g": 1}
 
 
+def _local_case(rng) -> dict:
+    """local address list given by the caller, holding a family the remote host does not have AND a bindable address of
+    the remote family; >= 2 remote addresses of which a NON-first one is the one that can succeed (the earlier ones are
+    refused / cannot create their socket / are slower than the stagger delay / hang); race and sequential path; tracked
+    and genuine socket module.  Every attempt must scan the local list on its own."""
+    api = "seq" if rng.random() < 0.4 else "race"
+    mode = "real" if rng.random() < 0.15 else "tracked"
+    fam = rng.choice([4, 6])
+    other = 10 - fam
+    n = rng.choice([2, 2, 3, 3, 4])
+    good = rng.randrange(1, n)
+    addrs = []
+    for i in range(n):
+        f = fam if (mode == "real" or rng.random() < 0.85) else rng.choice([other, 7])
+        if i == good:
+            addrs.append(A(fam, "ok"))
+        elif i < good:
+            if api == "seq":
+                addrs.append(A(f, "err", rng.random() >= 0.15))
+            else:
+                addrs.append(A(f, rng.choice(["err", "err", "err", "hang", "ok", "crash"] if rng.random() < 0.3 else ["err", "err", "hang"]),
+                               rng.random() >= 0.1))
+        else:
+            addrs.append(A(f, rng.choice(["ok", "err", "hang"]), rng.random() >= 0.1))
+    local = [{"fam": other, "bind": rng.random() < 0.7}, {"fam": fam, "bind": True}]
+    for _ in range(rng.choice([0, 0, 1, 2])):
+        local.append({"fam": rng.choice([fam, fam, other]), "bind": rng.random() < 0.5})
+    rng.shuffle(local)
+    delay = rng.choice([None, 0, 1, 1, 2])
+    script: list = [[] for _ in range(rng.choice([0, 1, 2, 3]))]
+    acts: list = [["c", i] for i in range(n)]
+    if delay:
+        acts.extend([["t", delay]] * rng.choice([1, 2, n]))
+    if rng.random() < 0.12:
+        acts.append(["x"])
+    rng.shuffle(acts)
+    while acts:
+        k = rng.choice([1, 1, 2])
+        script.append(acts[:k])
+        acts = acts[k:]
+        if rng.random() < 0.4:
+            script.append([])
+    if rng.random() < 0.3:
+        script = []
+    return {"addrs": addrs, "local": local, "delay": delay, "script": script, "mode": mode, "api": api, "g": 1}
+
+
 def generate(rng, tier: str, boost: int):
     from vlib import c19_client
-    for _ in range((150 if tier == "quick" else 1500) * boost):
+    for _ in range((500 if tier == "quick" else 4000) * boost):
         yield c19_client.gen_case(rng)
+    for _ in range((600 if tier == "quick" else 4000) * boost):
+        yield _local_case(rng)
     n = (5000 if tier == "quick" else 30000) * boost
     for _ in range(n):
         yield _dense_case(rng) if rng.random() < 0.35 else _rand_case(rng, 4)
@@ -440,6 +606,10 @@ def generate(rng, tier: str, boost: int):
 
 
 def extra_coverage(stats) -> dict:
+    from vlib import c19_client
     return {"lost_cancel_cases": _lost["n"],
+            "client_lost_cancel_in_known_window": c19_client.COUNT["lost_cancel_known_window"],
+            "client_layer": "api client = AsyncTCPNetworkClient / AsyncUDPNetworkClient on real loopback sockets with a gated "
+            "resolver (remote and local name): oracle only",
             "model_scope": "api race and seq in mode tracked are replayed on the Lean model; mode real (genuine socket "
             "module, AF_INET/AF_INET6 loopback) is judged by the descriptor oracle only"}
